@@ -64,6 +64,87 @@ Lemma wasabiti_derive_t1 : forall b0 rb1 t1 b1n g off tp trec, t1 <> 0 ->
   is_derive (fun x => wasabiti_code b0 rb1 x b1n g off tp trec) t1 (wasabiti_d_t1 b0 rb1 t1 b1n g off tp trec).
 Proof. intros. unfold wasabiti_code, wasabiti_d_t1. cbv zeta. generalize (sinc (tp * sqrt ((b1n * rb1 * g) ^ 2 + (off - b0) ^ 2))). intro s. dsolve. Qed.
 
+(* ---- WASABI / WASABITI: the parameters inside the sinc, away from its removable singularity -------------------------- *)
+Lemma sqrt_nz : forall q, 0 < q -> sqrt q <> 0.
+Proof. intros q Hq E. apply sqrt_eq_0 in E; lra. Qed.
+Lemma sumsq_pos_strict : forall u v, (u <> 0 \/ v <> 0) -> 0 < u ^ 2 + v ^ 2.
+Proof.
+  intros u v H. pose proof (pow2_ge_0 u). pose proof (pow2_ge_0 v).
+  destruct H as [H|H]; [assert (0 < u ^ 2) by (destruct (Rdichotomy _ _ H); nra)|assert (0 < v ^ 2) by (destruct (Rdichotomy _ _ H); nra)]; lra.
+Qed.
+Lemma w_nz : forall u v tp, (u <> 0 \/ v <> 0) -> tp <> 0 -> tp * sqrt (u ^ 2 + v ^ 2) <> 0.
+Proof.
+  intros u v tp H Htp. apply Rmult_integral_contrapositive_currified; [exact Htp|]. apply sqrt_nz. apply sumsq_pos_strict. exact H.
+Qed.
+
+Lemma wasabi_nz_derive_b0 : forall b0 rb1 c d b1n g off tp,
+  0 < (b1n * rb1 * g) ^ 2 + (off - b0) ^ 2 -> tp <> 0 ->
+  is_derive (fun x => wasabi_nz x rb1 c d b1n g off tp) b0 (wasabi_d_b0 b0 rb1 c d b1n g off tp).
+Proof.
+  intros b0 rb1 c d b1n g off tp Hq Htp. unfold wasabi_nz, wasabi_d_b0. cbv zeta.
+  assert (Hq' : 0 < b1n * rb1 * g * (b1n * rb1 * g * 1) + (off + - b0) * ((off + - b0) * 1)).
+  { replace (b1n * rb1 * g * (b1n * rb1 * g * 1) + (off + - b0) * ((off + - b0) * 1)) with ((b1n * rb1 * g) ^ 2 + (off - b0) ^ 2) by ring. exact Hq. }
+  pose proof (sqrt_nz _ Hq') as Hs. pose proof PI_neq0 as Hpi.
+  assert (Hw : PI * (tp * sqrt (b1n * rb1 * g * (b1n * rb1 * g * 1) + (off + - b0) * ((off + - b0) * 1))) <> 0).
+  { apply Rmult_integral_contrapositive_currified; [exact Hpi|]. apply Rmult_integral_contrapositive_currified; assumption. }
+  auto_derive; [repeat split; assumption|].
+  cbn [pow]. unfold Rdiv, Rminus.
+  set (S := sqrt (b1n * rb1 * g * (b1n * rb1 * g * 1) + (off + - b0) * ((off + - b0) * 1))) in *.
+  set (SN := sin (PI * (tp * S))). set (CS := cos (PI * (tp * S))).
+  field. repeat split; assumption.
+Qed.
+Lemma wasabi_nz_derive_rb1 : forall b0 rb1 c d b1n g off tp,
+  0 < (b1n * rb1 * g) ^ 2 + (off - b0) ^ 2 -> tp <> 0 ->
+  is_derive (fun x => wasabi_nz b0 x c d b1n g off tp) rb1 (wasabi_d_rb1 b0 rb1 c d b1n g off tp).
+Proof.
+  intros b0 rb1 c d b1n g off tp Hq Htp. unfold wasabi_nz, wasabi_d_rb1. cbv zeta.
+  assert (Hq' : 0 < b1n * rb1 * g * (b1n * rb1 * g * 1) + (off + - b0) * ((off + - b0) * 1)).
+  { replace (b1n * rb1 * g * (b1n * rb1 * g * 1) + (off + - b0) * ((off + - b0) * 1)) with ((b1n * rb1 * g) ^ 2 + (off - b0) ^ 2) by ring. exact Hq. }
+  pose proof (sqrt_nz _ Hq') as Hs. pose proof PI_neq0 as Hpi.
+  assert (Hw : PI * (tp * sqrt (b1n * rb1 * g * (b1n * rb1 * g * 1) + (off + - b0) * ((off + - b0) * 1))) <> 0).
+  { apply Rmult_integral_contrapositive_currified; [exact Hpi|]. apply Rmult_integral_contrapositive_currified; assumption. }
+  auto_derive; [repeat split; assumption|].
+  cbn [pow]. unfold Rdiv, Rminus.
+  set (S := sqrt (b1n * rb1 * g * (b1n * rb1 * g * 1) + (off + - b0) * ((off + - b0) * 1))) in *.
+  set (SN := sin (PI * (tp * S))). set (CS := cos (PI * (tp * S))).
+  field. repeat split; assumption.
+Qed.
+
+(* with B1 <> 0 the sinc argument never vanishes, whatever b0_shift: the code's expression is wasabi_nz as a function of b0 *)
+Lemma wasabi_derive_b0 : forall b0 rb1 c d b1n g off tp, b1n * rb1 * g <> 0 -> tp <> 0 ->
+  is_derive (fun x => wasabi_code x rb1 c d b1n g off tp) b0 (wasabi_d_b0 b0 rb1 c d b1n g off tp).
+Proof.
+  intros b0 rb1 c d b1n g off tp Hu Htp.
+  apply (is_derive_ext (fun x => wasabi_nz x rb1 c d b1n g off tp)).
+  - intro t. symmetry. apply wasabi_code_nz. apply w_nz; [left; exact Hu|exact Htp].
+  - apply wasabi_nz_derive_b0; [|exact Htp]. apply sumsq_pos_strict. left. exact Hu.
+Qed.
+(* off resonance the sinc argument never vanishes, whatever relative_b1 *)
+Lemma wasabi_derive_rb1 : forall b0 rb1 c d b1n g off tp, off - b0 <> 0 -> tp <> 0 ->
+  is_derive (fun x => wasabi_code b0 x c d b1n g off tp) rb1 (wasabi_d_rb1 b0 rb1 c d b1n g off tp).
+Proof.
+  intros b0 rb1 c d b1n g off tp Hv Htp.
+  apply (is_derive_ext (fun x => wasabi_nz b0 x c d b1n g off tp)).
+  - intro t. symmetry. apply wasabi_code_nz. apply w_nz; [right; exact Hv|exact Htp].
+  - apply wasabi_nz_derive_rb1; [|exact Htp]. apply sumsq_pos_strict. right. exact Hv.
+Qed.
+Lemma wasabiti_derive_b0 : forall b0 rb1 t1 b1n g off tp trec, b1n * rb1 * g <> 0 -> tp <> 0 ->
+  is_derive (fun x => wasabiti_code x rb1 t1 b1n g off tp trec) b0 (wasabiti_d_b0 b0 rb1 t1 b1n g off tp trec).
+Proof.
+  intros b0 rb1 t1 b1n g off tp trec Hu Htp. unfold wasabiti_d_b0.
+  apply (is_derive_ext (fun x => sr_code 1 t1 trec * wasabi_code x rb1 1 2 b1n g off tp)).
+  - intro t. symmetry. apply wasabiti_code_wasabi.
+  - apply (is_derive_scal (fun x => wasabi_code x rb1 1 2 b1n g off tp)). apply wasabi_derive_b0; assumption.
+Qed.
+Lemma wasabiti_derive_rb1 : forall b0 rb1 t1 b1n g off tp trec, off - b0 <> 0 -> tp <> 0 ->
+  is_derive (fun x => wasabiti_code b0 x t1 b1n g off tp trec) rb1 (wasabiti_d_rb1 b0 rb1 t1 b1n g off tp trec).
+Proof.
+  intros b0 rb1 t1 b1n g off tp trec Hv Htp. unfold wasabiti_d_rb1.
+  apply (is_derive_ext (fun x => sr_code 1 t1 trec * wasabi_code b0 x 1 2 b1n g off tp)).
+  - intro t. symmetry. apply wasabiti_code_wasabi.
+  - apply (is_derive_scal (fun x => wasabi_code b0 x 1 2 b1n g off tp)). apply wasabi_derive_rb1; assumption.
+Qed.
+
 (* ---- constraints: derivative of the two-sided map is positive (another reading of "strictly monotone") ---------------- *)
 Lemma fwd_ab_derive : forall a b beta x,
   is_derive (fun t => fwd_ab a b beta t) x ((b - a) * beta * sigmoid beta x * (1 - sigmoid beta x)).
